@@ -31,7 +31,20 @@ func runJSLex(r *Rng, n int, st *Stats, cf *CoqFile) {
 	strKind := map[js_lexer.T]int{js_lexer.TStringLiteral: 1, js_lexer.TNoSubstitutionTemplateLiteral: 2, js_lexer.TTemplateHead: 3}
 	var items []string
 	for i := 0; i < n; i++ {
-		if i%2 == 0 {
+		if i%5 == 4 {
+			in := []byte("}")
+			for k := r.Intn(7); k > 0; k-- {
+				in = append(in, jsStrPieces[r.Intn(len(jsStrPieces))]...)
+			}
+			var tok js_lexer.T
+			var end, textLen int
+			status, msg := guardLexer(func() { tok, end, textLen = js_lexer.VerifRescanTemplate(string(in)) })
+			items = append(items, fmt.Sprintf("(2,%s,%d,%d,%d,%d)", CBytes(in), status, map[js_lexer.T]int{js_lexer.TTemplateTail: 4, js_lexer.TTemplateMiddle: 5}[tok], end, textLen))
+			st.Note("js-template-rescan", string(in), status == 0)
+			if status == 1 {
+				st.Fail("panic in js_lexer.RescanCloseBraceAsTemplateToken", fmt.Sprintf("%q", in), msg, "a token or a syntax error")
+			}
+		} else if i%2 == 0 {
 			in := []byte{"'\"`"[r.Intn(3)]}
 			for k := r.Intn(7); k > 0; k-- {
 				in = append(in, jsStrPieces[r.Intn(len(jsStrPieces))]...)
